@@ -18,6 +18,7 @@ REGISTRY = {
     "C05": "diagram",
     "C06": "transform",
     "C07": "invariance",
+    "C08": "constructors",
 }
 
 
